@@ -102,6 +102,38 @@ func tombstoneAgreement(r *Run) {
 	r.OnCondMustCall("common/db.(*enableDeletePatch).Put", "eq(0,len(a1))", ".Delete", "a zero-length write is reported as a delete")
 }
 
+// viewIsolationRules: how a historical view is reconstructed (shared by C07 and C02 — a syncing node
+// evaluates every block through exactly these views).
+func viewIsolationRules(r *Run) {
+	r.Alias("$front", "db.GetFrontierIdentifier(db.NewLevelDBSnapshotWrapper(recv.ldb.GetSnapshot()#0).Subset(db.frontierByte))")
+	r.Returns("common/db.(*mergedDB).Put", []string{"recv.dbs[0].Put(a0,a1)"}, "writes through a merged view land in its first (private) layer only")
+	r.Returns("common/db.(*mergedDB).changesInternal", []string{"recv.dbs[0].changesInternal(a0)#0, recv.dbs[0].changesInternal(a0)#1"}, "the change set reported by a view is exactly its private layer")
+	r.Returns("common/db.(*enableDeleteDB).Snapshot", []string{"db.enableDelete(db.newMergedDb(list(db.newMemDBInternal(),recv.db)))"}, "a snapshot gets a fresh private layer over its parent")
+	r.Returns("common/db.NewLevelDBSnapshotWrapper", []string{"db.enableDelete(db.newMergedDb(list(db.newMemDBInternal(),new(db.levelDBROWrapper))))"}, "a frontier view is a fresh private layer over a read-only snapshot")
+	r.Returns("common/db.newLevelDBSnapshotWrapper", []string{"db.newMergedDb(list(db.newMemDBInternal(),new(db.levelDBROWrapper)))"}, "same for the internal form")
+	r.PanicsAlways("common/db.(*levelDBROWrapper).Put", "snapshot layers are read-only")
+	get := "common/db.(*ldbManager).Get"
+	r.Alias("$raw", "phi(db.newMemDBInternal()|recv.l1Cache.Get(a0)#0.(*db.rollbackCache).raw|recv.l2Cache.Get(a0)#0.(*db.rollbackCache).raw)")
+	r.Has(get, "db.enableDelete(db.newMergedDb(list(db.newMemDBInternal(),db.newSkipDelete(db.newMergedDb(list($raw,db.newSubDB(db.frontierByte,db.newLevelDBSnapshotWrapper(recv.ldb.GetSnapshot()#0))))))))", "a historical view = fresh private layer over (undo overlay over the frontier snapshot)")
+	r.HasPrefix(get, "db.ApplyWithoutOverride($raw,recv.getRollback(iter(", "the overlay is extended with the undo record of each later height, oldest first, never overriding what an earlier (closer) undo recorded")
+	r.Branch(get, "le(iter((phi(a0|recv.l1Cache.Get(a0)#0.(*db.rollbackCache).frontier|recv.l2Cache.Get(a0)#0.(*db.rollbackCache).frontier).Height+1)),$front.Height)", "undo records are applied up to the frontier")
+	r.Branch(get, "ne(a0,db.GetIdentifierByHash(db.NewLevelDBSnapshotWrapper(recv.ldb.GetSnapshot()#0).Subset(db.frontierByte),a0.Hash)#0)", "an identifier that is not on this chain (same hash, other height) has no view")
+	r.Branch(get, "eq(a0,$front)", "the frontier itself needs no overlay")
+	r.Has(get, "store new(db.rollbackCache).frontier = $front", "a cached overlay records the frontier it was built up to")
+	r.Has(get, "store new(db.rollbackCache).raw = $raw", "the cached overlay is the one that was extended")
+	wo := "common/db.(*patchApplierWO)"
+	for _, m := range []string{".Put", ".Delete"} {
+		r.OnlyUnder(wo+m, "F(recv.db.Has(a0)#0)", ".Put", "the shared overlay is only extended: a key already recorded by a closer undo is never overridden")
+		r.Branch(wo+m, "ne(nil,recv.db.Has(a0)#1)", "lookup errors are kept")
+	}
+	r.Has("common/db.(*patchRollback).rollback", "recv.rb.Put(a0,recv.db.Get(a0)#0)", "the undo record of a key is its value in the pre-state view")
+	r.OnCondMustCall("common/db.(*patchRollback).rollback", "eq(leveldb.ErrNotFound,recv.db.Get(a0)#1)", ".Delete", "a key absent in the pre-state is undone by a delete")
+	r.Has("common/db.(*patchRollback).Put", "recv.rollback(a0)", "puts are undone from the pre-state")
+	r.Has("common/db.(*patchRollback).Delete", "recv.rollback(a0)", "deletes are undone from the pre-state")
+	r.Has("common/db.RollbackPatch", "store new(db.patchRollback).db = a0", "the undo is computed against the given pre-state view")
+
+}
+
 func runC07(r *Run) {
 	tombstoneAgreement(r)
 
@@ -144,32 +176,7 @@ func runC07(r *Run) {
 	r.Has("common/db.(*memdbManager).Add", "store recv.previous[$id] = $prev", "the parent link of the new head is recorded")
 	r.Has("common/db.(*memdbManager).Add", "store recv.frontierIdentifier = a0.GetCommits()[(len(a0.GetCommits())-1)].Identifier()", "the new head becomes the frontier")
 
-	// (3) view isolation
-	r.Returns("common/db.(*mergedDB).Put", []string{"recv.dbs[0].Put(a0,a1)"}, "writes through a merged view land in its first (private) layer only")
-	r.Returns("common/db.(*mergedDB).changesInternal", []string{"recv.dbs[0].changesInternal(a0)#0, recv.dbs[0].changesInternal(a0)#1"}, "the change set reported by a view is exactly its private layer")
-	r.Returns("common/db.(*enableDeleteDB).Snapshot", []string{"db.enableDelete(db.newMergedDb(list(db.newMemDBInternal(),recv.db)))"}, "a snapshot gets a fresh private layer over its parent")
-	r.Returns("common/db.NewLevelDBSnapshotWrapper", []string{"db.enableDelete(db.newMergedDb(list(db.newMemDBInternal(),new(db.levelDBROWrapper))))"}, "a frontier view is a fresh private layer over a read-only snapshot")
-	r.Returns("common/db.newLevelDBSnapshotWrapper", []string{"db.newMergedDb(list(db.newMemDBInternal(),new(db.levelDBROWrapper)))"}, "same for the internal form")
-	r.PanicsAlways("common/db.(*levelDBROWrapper).Put", "snapshot layers are read-only")
-	get := "common/db.(*ldbManager).Get"
-	r.Alias("$raw", "phi(db.newMemDBInternal()|recv.l1Cache.Get(a0)#0.(*db.rollbackCache).raw|recv.l2Cache.Get(a0)#0.(*db.rollbackCache).raw)")
-	r.Has(get, "db.enableDelete(db.newMergedDb(list(db.newMemDBInternal(),db.newSkipDelete(db.newMergedDb(list($raw,db.newSubDB(db.frontierByte,db.newLevelDBSnapshotWrapper(recv.ldb.GetSnapshot()#0))))))))", "a historical view = fresh private layer over (undo overlay over the frontier snapshot)")
-	r.HasPrefix(get, "db.ApplyWithoutOverride($raw,recv.getRollback(iter(", "the overlay is extended with the undo record of each later height, oldest first, never overriding what an earlier (closer) undo recorded")
-	r.Branch(get, "le(iter((phi(a0|recv.l1Cache.Get(a0)#0.(*db.rollbackCache).frontier|recv.l2Cache.Get(a0)#0.(*db.rollbackCache).frontier).Height+1)),$front.Height)", "undo records are applied up to the frontier")
-	r.Branch(get, "ne(a0,db.GetIdentifierByHash(db.NewLevelDBSnapshotWrapper(recv.ldb.GetSnapshot()#0).Subset(db.frontierByte),a0.Hash)#0)", "an identifier that is not on this chain (same hash, other height) has no view")
-	r.Branch(get, "eq(a0,$front)", "the frontier itself needs no overlay")
-	r.Has(get, "store new(db.rollbackCache).frontier = $front", "a cached overlay records the frontier it was built up to")
-	r.Has(get, "store new(db.rollbackCache).raw = $raw", "the cached overlay is the one that was extended")
-	wo := "common/db.(*patchApplierWO)"
-	for _, m := range []string{".Put", ".Delete"} {
-		r.OnlyUnder(wo+m, "F(recv.db.Has(a0)#0)", ".Put", "the shared overlay is only extended: a key already recorded by a closer undo is never overridden")
-		r.Branch(wo+m, "ne(nil,recv.db.Has(a0)#1)", "lookup errors are kept")
-	}
-	r.Has("common/db.(*patchRollback).rollback", "recv.rb.Put(a0,recv.db.Get(a0)#0)", "the undo record of a key is its value in the pre-state view")
-	r.OnCondMustCall("common/db.(*patchRollback).rollback", "eq(leveldb.ErrNotFound,recv.db.Get(a0)#1)", ".Delete", "a key absent in the pre-state is undone by a delete")
-	r.Has("common/db.(*patchRollback).Put", "recv.rollback(a0)", "puts are undone from the pre-state")
-	r.Has("common/db.(*patchRollback).Delete", "recv.rollback(a0)", "deletes are undone from the pre-state")
-	r.Has("common/db.RollbackPatch", "store new(db.patchRollback).db = a0", "the undo is computed against the given pre-state view")
+	viewIsolationRules(r)
 
 	// (4) lock discipline
 	r.Lockset("common/db", "ldbManager", "changes", []string{"ldb", "l1Cache", "l2Cache", "stopped"}, []string{"getPatch", "getRollback"}, nil,
